@@ -63,17 +63,12 @@ impl Block {
     ///
     /// `new_line_positions` is used for locating a starting position of a line in the source code.
     fn content_intersects_with_any(&self, line_changes: &[LineChange]) -> bool {
-        line_changes
-            .binary_search_by(|line_change: &LineChange| {
-                if Self::intersects_with_line_change(&self.content_position_range, line_change) {
-                    Ordering::Equal
-                } else if line_change.line < self.content_position_range.start.line {
-                    Ordering::Less
-                } else {
-                    Ordering::Greater
-                }
-            })
-            .is_ok()
+        // A linear scan: "does not intersect" is not monotone over the ordered changes (a change
+        // on a tag line may miss the content while a later one hits it), so a binary search
+        // can skip the intersecting change.
+        line_changes.iter().any(|line_change: &LineChange| {
+            Self::intersects_with_line_change(&self.content_position_range, line_change)
+        })
     }
 
     /// Whether the `Block`'s start tag intersects with any of the **ordered** `line_changes`.
